@@ -477,6 +477,9 @@ func (fa *Facts) transfer(in DNF, pred, succ *ssa.BasicBlock, predIdx int) DNF {
 				// merged from other phis or comparisons are not tracked; they would multiply the disjuncts)
 				if cl, _ := callResult(op); cl != nil {
 					add = append(add, Fact{Op: token.EQL, X: phi, Y: op})
+				} else if _, isCmp := op.(*ssa.BinOp); isCmp {
+					// the right operand of && / ||: the merged value is that comparison on this path
+					add = append(add, Fact{Op: token.EQL, X: phi, Y: op})
 				}
 			}
 			for _, g := range nList {
